@@ -238,11 +238,11 @@ CHECKS = {
 
 # What the waves of seeded changes added to each check after the text above was written (DESIGN.md section 16).
 ADDENDA = {
-    'C01': "Also: processors that report patched versions whose echo never comes (consistency bookkeeping must not change the schedule).",
+    'C01': "Also: processors that report patched versions whose echo never comes (consistency bookkeeping must not change the schedule); DELETED events followed by further events of the same key (a uid-less object deleted and re-created within its creation second).",
     'C02': "Also: sub-handlers nested two levels deep, resume cycles superseded by essential changes (a resume handler succeeds once per process), pure resume "
-           "cycles, ReplicaSets owned by Deployments, and a final rule that no progress record is left behind for ever.",
+           "cycles, ReplicaSets owned by Deployments, a resume handler with sub-handlers superseded in mid-cycle, and a final rule that no progress record is left behind for ever.",
     'C03': "Also: resume handlers (one retrying / two under asap) in every history with a restart, and the idle-worker tie (the last change arrives in the "
-           "very instant the object's worker retires, all step orders).",
+           "very instant the object's worker retires, all step orders); sub-handlers generated per item of a list in the spec while the list shrinks and grows between the steps.",
     'C04': "Also: stored-last-handled invariants in the write graph, look-alike annotation keys, a list universe for the diff laws, and the same in vivo: "
            "a closed loop (objects with a spec / empty essence, annotations and status storage, number<->boolean edits, field-narrowed handlers) where "
            "handlers fire exactly once per essential edit and what they are GIVEN (old/new/diff) is exact and free of own writes.",
@@ -253,26 +253,26 @@ ADDENDA = {
     'C07': "Also: daemons/timers spawned in the instant of the matching event while the barrier is up, a raw-event handler that writes through its patch, "
            "and a worker idle timeout shorter than the consistency timeout.",
     'C08': "Also: the framework's own carry-over (processing.py) in the closed loop with label toggles and a user transformation (patch.fns) that is "
-           "undone later by somebody else; objects without a status stanza.",
+           "undone later by somebody else, or whose delivering cycle fails as a whole (500) after the conflict; objects without a status stanza.",
     'C09': "Also: two spawned handlers per object living and dying separately (asked to stop only with a reason), bounded exit of the operator, "
-           "backoff >= timeout.",
+           "backoff >= timeout; synchronous (threaded) daemons told to stop more than once.",
     'C10': "Also: label-filter toggles during a slow run (no self-overlap), zero backoff.",
     'C11': "Also: the limits of a parent whose sub-handler keeps failing, background handlers with a running sibling and later events, zero backoff, "
-           "downtimes that push the next attempt behind the timeout (fractional, seconds, more than a day).",
-    'C12': "Also: attempts that take time before they fail (the pause counts from the failure).",
+           "downtimes that push the next attempt behind the timeout (fractional, seconds, more than a day), the same on a ReplicaSet owned by a Deployment.",
+    'C12': "Also: attempts that take time before they fail (the pause counts from the failure); a login handler that re-offers credentials invalidated earlier.",
     'C13': "Also: pauses only for live blockers and resumes only without them (every opening/closing of a watch is judged), operators with non-default "
-           "lifetimes against records that state none, a failing keep-alive around a slow graceful exit (the record stays withdrawn).",
+           "lifetimes against records that state none, a failing keep-alive around a slow graceful exit (the record stays withdrawn), lifetimes of a day and more.",
     'C14': "Also: permanently failing handlers, explicit deleted=False, lingering deletions, slow resume handlers with re-listings during their run.",
     'C15': "Also: two-key label/annotation criteria (every ordered pair of criterion kinds x key states x handler family, selection and prematch) and one "
            "function stacked twice under one id with different criteria.",
     'C16': "Also: empty and odd essences, look-alike user annotations, and after every operation: the essence contains no own record and all user data.",
     'C17': "Also: empty-mapping results, a handled kind without an index next to an indexed one (both visiting orders), same-named objects of two kinds.",
-    'C18': "Also: number<->boolean swaps, other spellings of the DELETE opt-in, strict standard-alphabet base64 decoding of the returned patch.",
+    'C18': "Also: number<->boolean swaps, other spellings of the DELETE opt-in, strict standard-alphabet base64 decoding of the returned patch, one transformation function requested twice.",
     'C19': "Also: resource versions that gain a digit, namespaced mandatory peering against namespace removal, a cluster-scoped kind, and group (c): the "
            "whole operator (namespaces=['n*'], by-name and by-category handlers) while CRDs, versions, categories and namespaces come and go in the fake "
            "cluster - through the real observation and orchestration code.",
     'C20': "Also: more objects than workers at the stop (nothing is worked off afterwards), synchronous (threaded) startup handlers with the stop before, "
-           "during and after their run (threads emulated as uncancellable futures with a declared virtual duration).",
+           "during and after their run (threads emulated as uncancellable futures with a declared virtual duration), daemons without a cancellation timeout under failures of essential tasks.",
 }
 
 
